@@ -508,11 +508,39 @@ fn execute(jobs: &[Job], prefix: &[usize], shared_locks: &BTreeSet<LockId>) -> E
         cv: Condvar::new(),
     });
     // set-up on this thread, naming the locks
-    verif::set_scheduler(Some(Arc::new(SetupScheduler(shared.clone()))));
     vmkit::take_ticks();
     let needs_channel = jobs.iter().any(|j| matches!(j, Job::Send | Job::Recv));
-    let world = Arc::new(setup(n, needs_channel));
-    verif::set_scheduler(None);
+    // the set-up runs on a thread of its own so that a set-up that never finishes (a lock taken
+    // twice by the same thread) is a verdict and not a hang of the explorer
+    let world = {
+        let (tx, rx) = std::sync::mpsc::channel();
+        let shared2 = shared.clone();
+        std::thread::Builder::new()
+            .stack_size(32 << 20)
+            .spawn(move || {
+                verif::set_scheduler(Some(Arc::new(SetupScheduler(shared2))));
+                let w = setup(n, needs_channel);
+                verif::set_scheduler(None);
+                let _ = tx.send((w, vmkit::ticks_of("m")));
+            })
+            .unwrap();
+        match rx.recv_timeout(Duration::from_secs(30)) {
+            Ok((w, _)) => Arc::new(w),
+            Err(_) => {
+                return Execution {
+                    results: vec![None; n],
+                    decisions: Vec::new(),
+                    deadlock: Some("the single threaded set-up (VM creation, module registration, Thread::new_thread for every worker) does not finish: a thread waits for a lock it holds itself".to_string()),
+                    diverged: None,
+                    stuck_events: 0,
+                    points: 0,
+                    ticks_m: 0,
+                    touched: BTreeMap::new(),
+                    timed_out: false,
+                }
+            }
+        }
+    };
     let tick_counter = Arc::new(Mutex::new(0u64));
     let results: Arc<Mutex<Vec<Option<String>>>> = Arc::new(Mutex::new(vec![None; n]));
     let mut handles = Vec::new();
@@ -630,8 +658,16 @@ fn execute(jobs: &[Job], prefix: &[usize], shared_locks: &BTreeSet<LockId>) -> E
 fn solo(jobs: &[Job], i: usize) -> String {
     vmkit::take_ticks();
     let needs_channel = jobs.iter().any(|j| matches!(j, Job::Send | Job::Recv));
-    let world = setup(jobs.len(), needs_channel);
-    run_job(&world, i, jobs[i])
+    let (tx, rx) = std::sync::mpsc::channel();
+    let (n, job) = (jobs.len(), jobs[i]);
+    std::thread::Builder::new()
+        .stack_size(32 << 20)
+        .spawn(move || {
+            let world = setup(n, needs_channel);
+            let _ = tx.send(run_job(&world, i, job));
+        })
+        .unwrap();
+    rx.recv_timeout(Duration::from_secs(60)).unwrap_or_else(|_| "<the worker does not finish even when it runs alone>".to_string())
 }
 
 // ---------------------------------------------------------------------------------------------
